@@ -30,11 +30,13 @@ TIME_THOROUGH = TIME_QUICK + [("Timers.tla", "MC_time_%d.cfg" % k, 4, "6g", 1800
 # filled in by the other specification modules as they are added
 READER = [("MC_reader.tla", "MC_reader.cfg", 4, "3g", 600)]
 CODEC = [("MC_codec.tla", "MC_codec.cfg", 1, "2g", 600)]
+ARENA_QUICK = [("MC_arena.tla", "MC_arena.cfg", 4, "4g", 600)]
+ARENA_THOROUGH = ARENA_QUICK + [("MC_arena.tla", "MC_arena_mid.cfg", 6, "8g", 1800), ("MC_arena.tla", "MC_arena_deep.cfg", 10, "16g", 7200)]
 EXTRA = {"C10": {"quick": TIME_QUICK, "thorough": TIME_THOROUGH},
          "C15": {"quick": READER, "thorough": READER}, "C14": {"quick": READER, "thorough": READER},
          "C08": {"quick": READER + CODEC, "thorough": READER + CODEC}, "C12": {"quick": READER, "thorough": READER},
          "C09": {"quick": CODEC, "thorough": CODEC}, "C19": {"quick": CODEC, "thorough": CODEC},
-         "C20": {"quick": CODEC, "thorough": CODEC}, "C17": {"quick": [], "thorough": []}}
+         "C20": {"quick": CODEC, "thorough": CODEC}, "C17": {"quick": ARENA_QUICK, "thorough": ARENA_THOROUGH}}
 PLAN["C01"] = {"quick": FLOW_QUICK + CODEC, "thorough": FLOW_THOROUGH + CODEC}
 
 
